@@ -29,10 +29,6 @@ LISTY = re.compile(r'(nodelist|nodes$|argnlist|nodeargs|exprnodes|parts$|chunks|
 
 # reviewed exceptions for G7 (function qualname, subscript text) -> reason
 G7_REVIEWED_SRC = {
-    ('_format_uebung', 'nodeargs[0]'): ('list padded to length 2 by `nodeargs += [None] * (2 - len(nodeargs))`',
-                                        'nodeargs += [None] * (2 - len(nodeargs))'),
-    ('_format_uebung', 'nodeargs[1]'): ('list padded to length 2 by `nodeargs += [None] * (2 - len(nodeargs))`',
-                                        'nodeargs += [None] * (2 - len(nodeargs))'),
     ('LatexNodes2Text._input_node_simplify_repl', 'n.nodeargs[0]'):
         ('either len(n.nodeargs) == 1 or the preceding branch returned when n.nodeargs is empty',
          "if not n.nodeargs:\n            return ''"),
@@ -611,6 +607,47 @@ def _len_fact_ok(facts, base, k):
     return False
 
 
+def min_len(e):
+    """lower bound of the length of a list-valued expression (after substitution of locals)"""
+    if isinstance(e, (ast.List, ast.Tuple)):
+        return sum(0 if isinstance(x, ast.Starred) else 1 for x in e.elts)
+    if isinstance(e, ast.IfExp):
+        return min(min_len(e.body), min_len(e.orelse))
+    if isinstance(e, ast.BinOp) and isinstance(e.op, ast.Add):
+        # pad idiom:  A + [x] * (n - len(A))   has length >= n
+        r = e.right
+        if isinstance(r, ast.BinOp) and isinstance(r.op, ast.Mult):
+            lst, cnt = (r.left, r.right) if isinstance(r.left, (ast.List, ast.Tuple)) else (r.right, r.left)
+            if isinstance(lst, (ast.List, ast.Tuple)) and len(lst.elts) == 1 and \
+                    isinstance(cnt, ast.BinOp) and isinstance(cnt.op, ast.Sub) and \
+                    isinstance(cnt.left, ast.Constant) and isinstance(cnt.left.value, int) and \
+                    isinstance(cnt.right, ast.Call) and unparse(cnt.right.func) == 'len' and \
+                    len(cnt.right.args) == 1 and unparse(cnt.right.args[0]) == unparse(e.left):
+                return max(cnt.left.value, min_len(e.left))
+        return min_len(e.left) + min_len(e.right)
+    if isinstance(e, ast.BinOp) and isinstance(e.op, ast.Mult):
+        lst, cnt = (e.left, e.right) if isinstance(e.left, (ast.List, ast.Tuple)) else (e.right, e.left)
+        if isinstance(cnt, ast.Constant) and isinstance(cnt.value, int) and cnt.value >= 0:
+            return min_len(lst) * cnt.value
+        return 0
+    return 0
+
+
+def _padded_enough(fnode, x, k):
+    """is the list indexed at x long enough on every structural path, by construction of its
+    value (literal, concatenation, pad idiom)"""
+    from . import symex
+    if k < 0:
+        need = -k
+    else:
+        need = k + 1
+    try:
+        cases = symex.Walker(is_sink=lambda n: n is x, sink_types=(ast.Subscript,)).run(fnode)
+    except (symex.TooManyPaths, RecursionError):
+        return False
+    return bool(cases) and all(min_len(c.sub.value) >= need for c in cases)
+
+
 def _g7(f, out):
     for x in walk_fn(f.node):
         if not (isinstance(x, ast.Subscript) and isinstance(x.ctx, ast.Load)):
@@ -631,6 +668,8 @@ def _g7(f, out):
             continue
         facts = atomic_facts(x)
         if _len_fact_ok(facts, base, k):
+            continue
+        if isinstance(f.node, (ast.FunctionDef, ast.AsyncFunctionDef)) and _padded_enough(f.node, x, k):
             continue
         out.append(Finding('G7', 'REFUTED', f.mod, enclosing_stmt(x) or x, f.key,
                            '%s is indexed with the constant %d but no dominating test shows the '
